@@ -44,11 +44,11 @@ fn main() {
             let prop = arg(&args, "--property").unwrap_or_else(|| "C01".into());
             let sh = shard::parse_shard(&args);
             if sh.is_some() || replay.is_some() || std::env::var("VERIF_NOSHARD").is_ok() {
-                lsm::run(&tier, seed, &prop, replay.as_deref(), &format!("{corpus}/lsm"), sh)
+                lsm::run(&tier, seed, &prop, replay.as_deref(), &format!("{corpus}/lsm"), sh, &drv)
             } else {
                 let mut rep = report::Report::new("lsm", lsm::rule());
                 let n = par::threads();
-                let pass: Vec<String> = vec!["--tier".into(), tier.clone(), "--seed".into(), seed.to_string(), "--property".into(), prop.clone(), "--corpus".into(), corpus.clone()];
+                let pass: Vec<String> = vec!["--tier".into(), tier.clone(), "--seed".into(), seed.to_string(), "--property".into(), prop.clone(), "--corpus".into(), corpus.clone(), "--drv".into(), drv.clone()];
                 let secs = if tier == "thorough" { 3000 } else { 420 };
                 shard::run_sharded(&mut rep, "lsm", &pass, n, std::time::Duration::from_secs(secs), "c09:operation-hangs");
                 rep.rule = lsm::rule().to_string();
